@@ -419,7 +419,9 @@ class LoaderGroup(Generic[_K, _L]):
         all_results = da.compute(all_tasks)[0]
         out = DataFrameDict()
         for key, result in zip(keys, all_results):
-            out[key] = pl.DataFrame(np.array(result), schema=schema)
+            # one column per function. NOTE: do not pass a 2D array, polars guesses
+            # its orientation from the shape (wrong if the array is square)
+            out[key] = pl.DataFrame([np.array(r) for r in result], schema=schema)
         return out
 
     def fsc(
